@@ -36,6 +36,10 @@ EncDenotes(D, m) == /\ D.ok
                     /\ SortedByBits(D.items)
 TEnc == /\ E.k = "Enc" /\ UNCHANGED <<map, n>> /\ E.err = ""
         /\ EncDenotes(DecDictE(FromJson(E.cells), E.roots[1] + 1, n), map)
+\* List: the in-memory dictionary after an encoding (encoding must not disturb it); big dictionaries list their first and last 128 entries
+TList == /\ E.k = "List" /\ UNCHANGED <<map, n>> /\ E.size = Cardinality(map)
+         /\ IF "part" \in DOMAIN E THEN AsSet(E.items) \subseteq map /\ Cardinality(AsSet(E.items)) = Len(E.items)
+            ELSE AsSet(E.items) = map /\ Len(E.items) = Cardinality(map)
 \* Dec: decoding what was encoded lists exactly the map, in ascending key-bit order
 TDec == /\ E.k = "Dec" /\ UNCHANGED <<map, n>> /\ E.err = ""
         /\ AsSet(E.items) = map /\ Len(E.items) = Cardinality(map) /\ StrSorted(E.items) /\ WidthOK(E.items)
@@ -73,7 +77,7 @@ TLoad == /\ E.k = "Load" /\ E.err = "" /\ n' = n
 
 TraceInit == l \in Starts /\ seg = l /\ map = {} /\ n = 0
 TraceNext == /\ l <= N /\ (l # seg => Trace[l].k # "Reset")
-             /\ (TReset \/ TPut \/ TGet \/ TEnc \/ TDec \/ TOrders \/ TLoad \/ TSubset)
+             /\ (TReset \/ TPut \/ TGet \/ TEnc \/ TList \/ TDec \/ TOrders \/ TLoad \/ TSubset)
              /\ Consume
 TraceSpec == TraceInit /\ [][TraceNext]_tvars
 Report == \A i \in Starts : PrintT(<<"SEG", i, TLCGet(i)>>)
